@@ -288,6 +288,22 @@ example :
       = [8, 0, 0] := by
   decide +kernel
 
+/-- a cyclic order, where the sorting permutation is not its own inverse: for `(4,8,2)`
+`argsortAsc = [2,0,1]`, its inverse is `[1,2,0]`.  Counts `(3,1,4)` (3 channels at 4 bit, 1 at 8,
+4 at 2) with a cost that charges every non-empty group an overhead become "all at 8 bit" =
+`(0,8,0)` in the quantizer's order; sorting a second time instead of un-sorting would hand over
+`(8,0,0)` = all at 4 bit.  All theorems of this section hold for every order (`refineLayer`
+un-sorts with `scatter`, the inverse permutation: `scatter_gather`, `gather_scatter`). -/
+example :
+    argsortAsc [4, 8, 2] = [2, 0, 1] ∧
+    gather [2, 0, 1] [3, 1, 4] = [4, 3, 1] ∧
+    (refineLayer (fun v => bitCost [4, 8, 2] v + 100 * (v.filter (· ≠ 0)).length) [4, 8, 2] [3, 1, 4]).best.vec
+      = [0, 0, 8] ∧
+    (refineLayer (fun v => bitCost [4, 8, 2] v + 100 * (v.filter (· ≠ 0)).length) [4, 8, 2] [3, 1, 4]).applied
+      = [0, 8, 0] ∧
+    gather [2, 0, 1] [0, 0, 8] = [8, 0, 0] := by
+  decide +kernel
+
 end Search
 
 /-! ## one layer end to end (search, then reassignment by score) -/
